@@ -313,9 +313,9 @@ var c01Rules = []genRule{
 	{"DEFAULT_NESTED_ARRAY_LITERAL", regexp.MustCompile(`cannot use \[\]interface ?\{\}.* as \[\][\w.]+ value in (array or slice literal|assignment)`), "default+array-array"},
 	{"DEFAULT_MIXED_ENUM_LITERAL", regexp.MustCompile(`cannot use .* \(untyped \w+ constant.*\) as \w+ value in assignment`), "default+wrapped-enum"},
 	{"NOOP_NUMERIC_UNUSED_FMT", regexp.MustCompile(`"fmt" imported and not used`), "noop-numeric"},
-	{"UNTYPED_ADDL_MISSING_IMPORTS", regexp.MustCompile(`undefined: (reflect|strings|mapstructure)`), "props+untyped-addl"},
+	{"UNTYPED_ADDL_MISSING_IMPORTS", regexp.MustCompile(`undefined: (reflect|strings|mapstructure|raw)`), "props+untyped-addl"},
 	{"ENUM_CONST_COLLISION", regexp.MustCompile(`(\w+ redeclared in this block|other declaration of \w+)`), "enum-const-collision"},
-	{"ANYOF_BRANCH_TYPED_ADDL_MISSING_IMPORTS", regexp.MustCompile(`undefined: (reflect|strings|mapstructure)`), "anyof-branch-typed-addl"},
+	{"ANYOF_BRANCH_TYPED_ADDL_MISSING_IMPORTS", regexp.MustCompile(`undefined: (reflect|strings|mapstructure|raw)`), "anyof-branch-typed-addl"},
 	{"ANYOF_NON_OBJECT_BRANCH_UNDEFINED", regexp.MustCompile(`undefined: \w+_\d+`), "anyof-non-object-branch"},
 	{"ANYOF_REF_TO_METHODLESS_DEFINITION", regexp.MustCompile(`\w+\.Unmarshal(JSON|YAML) undefined \(type \w+ has no field or method Unmarshal(JSON|YAML)\)`), "anyof-ref-branch"},
 	{"ENUM_WITH_FORMAT_MISSING_IMPORT", regexp.MustCompile(`undefined: (time|netip|types)`), "enum+format"},
